@@ -18,13 +18,14 @@ use crate::world_c::{Members, MsigState, PropTrack, WorldC, PAY_DENOM};
 const E18: u128 = 1_000_000_000_000_000_000;
 const E9: u128 = 1_000_000_000;
 
-/// exact ceil(base * pct); second value: the smallest requirement the property tolerates
-/// (one vote less when pct has more than 9 decimals)
+/// exact ceil(base * pct); second value: the smallest requirement the property tolerates — the same product
+/// evaluated at cw3's documented precision of nine decimals (`base * pct` truncated to 1e-9 before rounding up),
+/// which is one vote less exactly when base * pct lies within 1e-9 above an integer
 fn needed(base: u128, pct: Decimal) -> (u128, u128) {
     let at = pct.atomics().u128();
     let prod = base * at; // base < 2^64, at <= 1e18 < 2^60
     let exact = (prod + E18 - 1) / E18;
-    let lenient = if at % E9 != 0 { exact.saturating_sub(1) } else { exact };
+    let lenient = (prod / E9 + E9 - 1) / E9;
     (exact, lenient)
 }
 
